@@ -6,7 +6,8 @@ package main
 // before and after the statement gives up (returns without cutting) as soon as it meets a non-blank byte
 // on either side. The two give-up predicates must denote the same byte class, otherwise a line whose
 // indentation contains a byte that only one side accepts (a '\r', say) is treated as content on one side
-// and as blank on the other. Classes are computed from the syntax over all 256 byte values (E2).
+// and as blank on the other. Classes are computed from the syntax over all 256 byte values (E2); a call of a
+// one-byte predicate of the package written as a single returned expression (isLineSpace(c)) is evaluated.
 
 import (
 	"go/ast"
@@ -104,7 +105,7 @@ func c15BlankClasses(r *Run) {
 									return true
 								})
 								if hv != nil {
-									if set, ok := predSet(hinfo, his.Cond, isIdentOf(hinfo, hv), 0, 255); ok {
+									if set, ok := c15PredSet(r, hinfo, his.Cond, hv); ok {
 										classes = append(classes, cls{set, his.Cond})
 									}
 								}
@@ -136,7 +137,7 @@ func c15BlankClasses(r *Run) {
 			if v == nil || !pure {
 				return true
 			}
-			set, ok := predSet(info, is.Cond, isIdentOf(info, v), 0, 255)
+			set, ok := c15PredSet(r, info, is.Cond, v)
 			if !ok {
 				return true
 			}
